@@ -142,6 +142,28 @@ def _rot_grid(spec, ctx, R):
             _check_ggivens(ctx, U, x1, np.roll(x1, 1), tags=["tie"])
         if m2 == MAGS[0]:
             _check_grs(ctx, U, x1, tags=[p1, f"{m1:g}"])
+    # pairs whose joint length is NEARLY 1 (1 +- 1e-5 .. 1e-12, or unit data rounded to 5 decimals / to float32) - near-normalised, not normalised -
+    # and pairs of nearly (not exactly) equal modulus, in both ordering branches
+    for i in range(spec["part"], 40, spec["parts"]):
+        v = rng.standard_normal(8)
+        v = v / np.linalg.norm(v)
+        how = i % 5
+        if how == 0:
+            v = v * (1.0 + float(rng.choice([-1.0, 1.0])) * float(rng.choice([5e-6, 1e-6, 1e-8, 1e-12])))
+        elif how == 1:
+            v = np.round(v, 5)
+        elif how == 2:
+            v = v.astype(np.float32).astype(np.float64)
+        elif how == 3:
+            x = rng.standard_normal(4); y = rng.standard_normal(4)
+            x = x / np.linalg.norm(x); y = y / np.linalg.norm(y) * (1.0 + float(rng.choice([-1.0, 1.0])) * float(rng.choice([3e-6, 1e-9])))
+            v = np.concatenate([x, y]) * float(rng.choice([1.0, 0.7071, 3.0]))
+        else:
+            v = v * np.sqrt(2.0) * (1.0 + 1e-7)
+        if i % 2:
+            v = np.concatenate([v[4:], v[:4]])
+        ctx.distinct("rot:near_unit", v)
+        _check_ggivens(ctx, U, v[:4].copy(), v[4:].copy(), tags=["near_unit_length" if how != 3 else "near_tie"])
     if spec["part"] == 0:
         # components 1..3 individually non-zero (each must make the rotation non-trivial)
         for a in (1, 2, 3):
